@@ -3,7 +3,8 @@
    Sizes: m inducing points, n data points, all arbitrary.  Inverses / roots are relational. *)
 From Coq Require Import Arith QArith Qcanon List.
 Import ListNotations.
-From GPV Require Import Base.LinAlg Base.Exec Models.C14_variational Proofs.C14_variational Proofs.C14_more.
+From GPV Require Import Base.LinAlg Base.Exec Models.C14_variational Proofs.C14_variational Proofs.C14_more
+  Models.C14_branches Proofs.C14_branches.
 
 (* UnwhitenedVariationalStrategy.forward (eval branch: one solve against [m - mz, R], R any
    root of S) computes  Kxx - Kxz Kzz^-1 (Kzz - S) Kzz^-1 Kzx *)
@@ -167,6 +168,29 @@ Theorem c14_independent_multitask_is_identity_mixing :
     indep_mean T mu r O = lmc_mean T T (fun q t => if Nat.eqb q t then f1 else f0) mu r O.
 Proof. intros K. exact (@indep_is_lmc_identity K). Qed.
 Print Assumptions c14_independent_multitask_is_identity_mixing.
+
+(* settings.trace_mode(True) branch of VariationalStrategy.forward (dense product taken from the left:
+   K_XX + (A^T (S - I)) A) is the closed form the default lazy branch represents, for all sizes *)
+Theorem c14_trace_mode_branch_is_closed_form :
+  forall (K : Fld) m n A Kxx Sw,
+    meq n n (wh_cov_trace_mode m A Kxx Sw) (wh_cov m A Kxx Sw).
+Proof. intros K. exact (@wh_cov_trace_mode_eq K). Qed.
+Print Assumptions c14_trace_mode_branch_is_closed_form.
+
+(* ... and its sign is not a convention: subtracting the correction is right exactly when the correction
+   A^T (S - I) A vanishes (in particular at q(u) = p(u), which is why that family cannot see the sign) *)
+Theorem c14_trace_mode_branch_sign :
+  forall (K : Fld) m n A Kxx Sw, @fadd K f1 f1 <> f0 ->
+    (meq n n (wh_cov_trace_mode_minus m A Kxx Sw) (wh_cov m A Kxx Sw) <->
+     meq n n (mmul m (mT A) (mmul m (msub Sw mI) A)) mzero).
+Proof. intros K. exact (@wh_cov_trace_mode_minus_iff K). Qed.
+Print Assumptions c14_trace_mode_branch_sign.
+
+Theorem c14_trace_mode_branch_minus_refuted :
+  exists (A Kxx Sw : nat -> nat -> Qc),
+    @wh_cov_trace_mode_minus QcF 1 A Kxx Sw O O <> @wh_cov QcF 1 A Kxx Sw O O.
+Proof. exact wh_cov_trace_mode_minus_differs. Qed.
+Print Assumptions c14_trace_mode_branch_minus_refuted.
 
 (* the executable model only ever uses certified inverses *)
 Theorem c14_run_inverse_certified :
